@@ -243,18 +243,35 @@ class KeplerNum(NumericalPropagator):
         # (ie step), we use an Ephem object for interpolation
         ephem = [orb]
 
+        # The propagation goes backward when stop is before start
+        _step = -self.step if stop < start else self.step
+        mname = "__lt__" if _step.total_seconds() > 0 else "__gt__"
+
         date = start
-        while date < stop:
-            real_step, orb = self._make_step(orb, self.step)
+        while getattr(date, mname)(stop):
+            real_step, orb = self._make_step(orb, _step)
             ephem.append(orb)
             date += real_step
 
+        if step is not None or dates is not None:
+            # Provide enough extra steps to allow Ephem to interpolate
+            # with order DEFAULT_ORDER, even on a short time span
+            for i in range(Ephem.DEFAULT_ORDER - len(ephem)):
+                real_step, orb = self._make_step(orb, _step)
+                ephem.append(orb)
+
         ephem = Ephem(ephem)
 
+        # The integration grid may go further than the requested stop date,
+        # the start and stop dates are given in order to not go beyond them
         if kwargs.get("real_steps", False):
-            ephem_iter = ephem.iter(dates=dates, listeners=listeners)
+            ephem_iter = ephem.iter(
+                dates=dates, start=start, stop=stop, listeners=listeners
+            )
         else:
-            ephem_iter = ephem.iter(dates=dates, step=step, listeners=listeners)
+            ephem_iter = ephem.iter(
+                dates=dates, start=start, stop=stop, step=step, listeners=listeners
+            )
 
         for orb in ephem_iter:
             yield orb.as_orbit(self.copy())
